@@ -85,6 +85,8 @@ def main():
         S = rng.choice([1, 1, 2, 4])
         g = Gen(rng, vars_=rng.choice([("x",), ("x", "y"), ("x", "y", "z")]), S=S, ops=PAST_OPS,
                 arith=("add", "sub", "abs", "neg") + (("mul",) if S == 1 else ()), ivs=IVS + [(0, 7), (3, 5)])
+        if rng.random() < 0.2:
+            g.tterm = 0.25            # stateful operators inside the operands of a comparison
         k = rng.random()
         if k < 0.25:
             q = g.formula(rng.choice([1, 2]))
